@@ -16,6 +16,7 @@ Definition strip_act (a : act pmut N) : option kact :=
   | AMut _ _ m => match strip_op m with Some m' => Some (AMut _ _ m') | None => None end
   | ADecide _ _ q => Some (ADecide _ _ q) | AInval _ _ => Some (AInval _ _)
   | ALookup _ _ q => Some (ALookup _ _ q) | ASnap _ _ q => Some (ASnap _ _ q) | AInsert _ _ q => Some (AInsert _ _ q)
+  | AAsk _ _ q => Some (AAsk _ _ q)
   end.
 
 Fixpoint strip_prog (p : list (act pmut N)) : option (list kact) :=
